@@ -149,6 +149,7 @@ def run_check(mod, tier, seed):
     nproc = min(NPROC, max(1, len(work)))
     from . import bmc as _bmc
     _bmc.VIOLATION_SEEN = multiprocessing.get_context("fork").Event()
+    _bmc.CROSS_CHECK = 40 if tier == "thorough" else 0
     _bmc.KNOWN_KEYS = {k["key"] for k in load_known() if k.get("property") == pid and k.get("status") == "known"}
     results = _run_forked(mod, work, nproc, _bmc.VIOLATION_SEEN,
                           deadline=getattr(mod, "TASK_DEADLINE_S", 900 if tier == "quick" else 3600))
@@ -212,6 +213,7 @@ def run_check(mod, tier, seed):
         "traces_validated_against_impl": total.cosim_runs + total.replays,
         "cosim_cycles": total.cosim_cycles,
         "solver_s": round(total.solver_s, 2),
+        "cvc5_cross_checked_queries": total.encoded.get("cvc5_cross_checked", 0),
         "functions_encoded": meta.get("encoded", []),
         "bounds": meta.get("bounds", ""),
         "outside_claim": meta.get("outside", ""),
